@@ -5,11 +5,11 @@ V = os.path.dirname(os.path.dirname(os.path.abspath(__file__)))
 E_INPUT = "bounded-exhaustive enumeration of inputs over the real code against a reference model"
 CHECKS = {
  "C01": dict(technique="explicit-state exploration of edit histories over the real incremental analysis (inductive single-step sweep from every fresh state, two-edit batches, BFS with the implementation state carried forward); differential oracle fresh analysis",
-   text="from fresh(t) for every text of the bounded families (character soups, token soups, generated programs) every edit of the family's alphabet is applied through AnalyzedSource::update and tokens, tree, symbol table and errors() are compared with AnalyzedSource::new(final text) after every step; exact known-finding membership by input hash, any other diverging input is a violation",
+   text="from fresh(t) for every text of the bounded families (character soups, token soups, generated programs, valid-to-valid token edits on multi-declaration programs) every edit of the family's alphabet is applied through AnalyzedSource::update and tokens, tree, symbol table and errors() are compared with AnalyzedSource::new(final text) after every step; at protocol level the diagnostics published after didChange and the answers of all 13 request kinds after the edits equal those of a freshly opened document; exact known-finding membership by input hash, any other diverging input is a violation",
    note="AnalyzedSource::new is the specification; histories that leave the bounded text set are not covered; known divergences of the pinned tree are listed exactly in known_findings/C01.hashes", ref="4/C01"),
  "C02": dict(technique="bounded-exhaustive enumeration of documents x requests x positions and of edit histories, executed on the real server loop (in process, tokio shim)",
    text="every document of the bounded families (token soups <=3/4 tokens, character soups <=3/4 chars incl. multi-byte, generated valid programs in 6 layouts, all single-token mutations of generated programs, nesting ladders <=32, edit histories) is opened in the unmodified LanguageServer::run(); all 13 request methods at every (line, UTF-16 column) incl. overshooting positions must be answered with exactly one well-formed result response in order, without panic or Err",
-   note="in-process run() with in-memory stdio; a non-terminating case is reported by a watchdog as a violation (hang); process-level liveness belongs to C18", ref="4/C02"),
+   note="in-process run() with in-memory stdio; a non-terminating case is reported by a watchdog as a violation (hang); nesting ladders and a fixed sub-family are replayed against the release binary (liveness with the real 2 MiB worker stacks, answers identical to the in-process run)", ref="4/C02"),
  "C03": dict(technique="bounded-exhaustive enumeration of programs classified by an independent reference checker (well-typed / exactly one rule violated) x layouts x comment placements through the real analysis and publishDiagnostics",
    text="every program of the well-typed family gets no diagnostic; every program of the expression/statement/fault-pool/declaration-fault families that the reference checker classifies as violating exactly one rule gets >=1 diagnostic of that rule inside the byte span of the offending construct and none of another rule (all 27 rule kinds occur); ranges lie inside the document; published diagnostics equal errors() converted by the LSP text model",
    note="reference checker refsem.rs; programs violating several rules are skipped and counted", ref="4/C03"),
@@ -44,7 +44,7 @@ CHECKS = {
    text="at every position of every gap that is a statement start (incl. before closing braces and brace-less branches), follows := or the ( of a call/if/while, follows : in a parameter/variable declaration, or lies between global declarations: VARIABLE labels = parameters+locals of the enclosing procedure, FUNCTION labels = declared+predefined procedures (statement starts), STRUCT labels = declared types + int (type positions), only declaration starters at top level",
    note="scopes from refsem.rs; positions directly behind a token (cursor touching it) are not gap positions; keyword/snippet items ignored except at top level", ref="4/C16"),
  "C17": dict(technique="bounded-exhaustive enumeration of programs x layouts x comment placements through the real foldingRange handler; expected folds by construction",
-   text="one fold per procedure, in source order, from the line of `proc` to the line of its last token for every generated program x layout x comment-gap variant; well-formedness (start<=end, inside document, non-overlapping) for every token soup up to 3/4 tokens",
+   text="one fold per procedure, in source order, from the line of `proc` to the line of its last token for every generated program x 7 layouts (incl. CRLF and lone CR) x comment-gap variant, and per program a session that opens, replaces, closes and re-opens the document with a fold request after each step; well-formedness (start<=end, inside document, non-overlapping) for every token soup up to 3/4 tokens",
    note="line numbers from the independent text model lsptext.rs", ref="4/C17"),
  "C05": dict(technique="bounded-exhaustive enumeration of single-token damages (delete / insert / replace over the token alphabet) on every token of every declaration of generated multi-declaration programs; differential oracle against the undamaged parse",
    text="for every program (2..4 declarations of a pool, every type-correct order), every declaration as the damaged one, every token except the declaration keyword and every damage: sub-trees of all other declarations are unchanged (offset shifted), their symbol-table entries are unchanged up to the shift, every syntax diagnostic lies inside the damaged declaration's byte span, goto declaration inside undamaged declarations answers as before",
@@ -56,7 +56,7 @@ CHECKS = {
    text="all (text, byte range, replacement) triples over the alphabets up to the bounds, and BFS over edit histories feeding update results forward; in every state tokens equal a fresh lex and the reported window is truthful",
    note="oracle lexer::lex is itself checked by C06; bounded by alphabet and length", ref="4/C07"),
  "C18": dict(technique="exhaustive enumeration of client message histories against the release binary (lock-step client; every byte prefix + end of input) with a lifecycle automaton as reference, plus stateless preemption-bounded exploration of all schedules of the real run() (tokio shim + shuttle, own bounded-DFS scheduler)",
-   text="all histories over the 8-letter message alphabet up to length 4/5 against the built binary: one response per request, ids and order, prescribed result/error code per phase, exit status 0 after shutdown / 1 otherwise, termination after end of input; every (quick: every 6th + all frame boundaries) byte prefix of all sessions up to length 2/3 followed by end of input: prompt exit, output a well-formed prefix of the expected response stream; in process: every history that does not reach process::exit(1), pipelined, all schedules with <= 2/3 preemptions (one less for the longest histories), real and clamped channel capacities: no deadlock, run() returns Ok, all responses present when run() returns",
+   text="all histories over the 9-letter message alphabet up to length 4/5 against the built binary, lock-step and fully pipelined: one response per request, ids and order, prescribed result/error code per phase, exit status 0 after shutdown / 1 otherwise, termination after end of input; every (quick: every 6th + all frame boundaries) byte prefix of all sessions up to length 2/3 followed by end of input: prompt exit, output a well-formed prefix of the expected response stream; in process: every history that does not reach process::exit(1), pipelined, all schedules with <= 2/3 preemptions (one less for the longest histories), real and clamped channel capacities: no deadlock, run() returns Ok, all responses present when run() returns",
    note="lifecycle automaton lifecycle.rs is nondeterministic where the statement is silent; std::process::exit cannot be intercepted in process, hence the split; children run with TOKIO_WORKER_THREADS=4 (still the multi-threaded runtime)", ref="4/C18"),
  "C19": dict(technique="deviation-bounded exhaustive enumeration of read segmentations (0, 1, 2 short reads; one byte per read) of whole sessions through the real FramedRead/LSCodec inside run(), Pending reads as scheduler choices under the bounded-DFS scheduler, differential oracle against the unsplit run; two-way splits replayed against the release binary",
    text="six sessions (2..5-digit body lengths, non-ASCII document and non-ASCII server output, a frame larger than the initial read buffer, many small frames): every two-way split at every byte, three-way splits (all pairs for the minimal session, windowed otherwise), one byte per read: responses in order and notifications in order equal the unsplit run, every emitted frame has an exact Content-Length and a JSON body; minimal session: every two-way split under all schedules with <= 1/2 preemptions with a client task delivering the chunks; conformance: two-way splits against the binary with pipe-drain synchronised writes",
